@@ -169,6 +169,18 @@ SetSliceAlt(st, a, b, xs) ==
       items2 == SubSeq(st.items, 1, lo) \o xs \o SubSeq(st.items, hi + 1, n) IN
   IF NoDup(items2) THEN Ok(items2, IndexOf(items2)) ELSE Fail(st, "ValueError")
 
+\* l[a:b:2] = xs : an extended slice; the new ids are checked like those of a plain slice, then the sizes must
+\* agree (list.__setitem__ raises ValueError otherwise, before anything changed) and the elements at
+\* lo, lo + 2, ... (< hi) are replaced one for one
+DoSetSlice2(st, a, b, xs) ==
+  LET n == Len(st.items) lo == SliceLo(a, n) hi == SliceHi(a, b, n)
+      P == {p \in lo..(hi - 1) : (p - lo) % 2 = 0}
+      rank(p) == ((p - lo) \div 2) + 1 IN
+  IF (\E k \in 1..Len(xs) : st.idx[xs[k].id] # Missing) \/ ~SeqNoDup(xs) THEN Fail(st, "ValueError")
+  ELSE IF Len(xs) # Cardinality(P) THEN Fail(st, "ValueError")
+  ELSE LET items2 == [k \in 1..n |-> IF (k - 1) \in P THEN xs[rank(k - 1)] ELSE st.items[k]] IN
+       Ok(items2, IndexOf(items2))
+
 DoDelSlice(st, a, b) ==
   LET n == Len(st.items) lo == SliceLo(a, n) hi == SliceHi(a, b, n)
       items2 == SubSeq(st.items, 1, lo) \o SubSeq(st.items, hi + 1, n) IN
@@ -221,6 +233,7 @@ Apply(op, st, IdLess(_, _)) ==
     [] op.op = "isub"     -> DoISub(st, op.xs)
     [] op.op = "setitem"  -> DoSetItem(st, op.i, op.x)
     [] op.op = "setslice" -> DoSetSlice(st, op.a, op.b, op.xs)
+    [] op.op = "setslice2" -> DoSetSlice2(st, op.a, op.b, op.xs)
     [] op.op = "delslice" -> DoDelSlice(st, op.a, op.b)
     [] op.op = "sort"     -> LET s == SortSeq(st.items, LAMBDA x, y : IdLess(x.id, y.id)) IN Ok(s, IndexOf(s))
     [] op.op = "sortrev"  -> LET s == SortSeq(st.items, LAMBDA x, y : IdLess(y.id, x.id)) IN Ok(s, IndexOf(s))
@@ -237,7 +250,7 @@ Apply(op, st, IdLess(_, _)) ==
     [] OTHER              -> R(st.items, st.idx, "unknown-op", NoRet)
 
 Mutating(op) == op.op \in {"append", "add", "extend", "iadd", "union", "insert", "pop", "poplast",
-                           "delitem", "remove", "removeid", "isub", "setitem", "setslice",
+                           "delitem", "remove", "removeid", "isub", "setitem", "setslice", "setslice2",
                            "delslice", "sort", "sortrev", "reverse", "rename"}
 ReturnsList(op) == op.op \in {"getslice", "query", "copy", "pickle", "deepcopy", "addop", "subop"}
 
